@@ -1,6 +1,7 @@
 import Driver.Util
 import LemoModel.Journal
 import LemoModel.MergeLogs
+import LemoModel.CopyHeap
 namespace Driver.C07
 open LemoModel.Journal Driver
 
@@ -120,8 +121,43 @@ def showLog (l : LemoModel.MergeLogs.L) : String :=
   | [(_, v)] => s!"{l.key / 100}:{l.key % 100}:{v}"
   | _ => "?"
 
+/-! `copy` ops: LemoModel.CopyHeap against the real AccountData.Copy -/
+open LemoModel.CopyHeap in
+def copyShape (h : Heap) (s : String) : Option (Heap × Ref) :=
+  if s == "nil" then some (h, none)
+  else if s == "e" then some (h ++ [[]], some h.length)
+  else match (s.drop 1).toNat? with
+    | some n => if s.take 1 == "n" then some (h ++ [((List.range n).map (fun i => (i + 1, 7))).reverse], some h.length) else none
+    | none => none
+
+def parseW (w : String) : Option (Nat × Nat × Nat) :=
+  match w.splitOn ":" with
+  | [f, k, v] => do some ((← f.toNat?), (← k.toNat?), (← v.toNat?))
+  | _ => none
+
+/-- canonical content of a map: latest binding per key, sorted by the key's decimal text like the harness does -/
+def showMap (m : List (Nat × Nat)) : String :=
+  let keys := (m.map (·.1)).eraseDups
+  let ents := keys.map (fun k => (toString k, toString ((m.find? (fun e => e.1 == k)).map (·.2) |>.getD 0)))
+  let sorted := ents.toArray.qsort (fun a b => a.1 < b.1) |>.toList
+  "{" ++ ",".intercalate (sorted.map (fun e => e.1 ++ "=" ++ e.2)) ++ "}"
+
+open LemoModel.CopyHeap in
+def copyOp (ps rs : String) (ws : List String) : Option String := do
+  let (h1, p) ← copyShape [] ps
+  let (h2, r) ← copyShape h1 rs
+  let ws ← ws.mapM parseW
+  let src : AD := { profile := p, records := r }
+  let c := copy true h2 src
+  let w := writes c.1 c.2 ws
+  some s!"src.profile={showMap (rd w.1 src.profile)} src.records={showMap (rd w.1 src.records)} cpy.profile={showMap (rd w.1 w.2.profile)} cpy.records={showMap (rd w.1 w.2.records)}"
+
 def step (d : D) (w : List String) : D × String :=
   match w with
+  | "copy" :: ps :: rs :: ws =>
+    match copyOp ps rs ws with
+    | some o => (d, o)
+    | none => (d, "bad-op")
   | ["needmerge", t, b] =>
     match t.toNat? with
     | some t => (d, if toString (LemoModel.MergeLogs.needMerge t) == b then "ok" else "table-mismatch")
